@@ -81,9 +81,37 @@ func fixedArrayLen(v ssa.Value) (int64, bool) {
 
 const lfLooped uint64 = 1 << 62
 
+// classifyWriteBuf: U = slice filled by PutUvarint (its length is PutUvarint's result), 4 = fixed 4 bytes, B = raw bytes.
+func classifyWriteBuf(p ssa.Value) string {
+	if sl, ok := p.(*ssa.Slice); ok && sl.High != nil {
+		if dependsOn(sl.High, func(y ssa.Value) bool {
+			c2, ok := y.(*ssa.Call)
+			return ok && isBinaryFunc(c2.Common(), "PutUvarint")
+		}) {
+			return "U"
+		}
+		if k, ok := constInt(sl.High); ok && k == 4 {
+			return "4"
+		}
+	}
+	return "B"
+}
+
 func layoutTraces(p *Program, root *ssa.Function, classify func(call *ssa.Call) string) (map[string]bool, int, bool) {
 	sites := map[ssa.Instruction]bool{}
 	s := &Summarizer{}
+	s.TraceMap = func(call ssa.CallInstruction, st *PState, tr string) string {
+		if !strings.Contains(tr, "W") {
+			return tr
+		}
+		cls := "B"
+		for _, arg := range call.Common().Args {
+			if isByteSlice(arg.Type()) {
+				cls = classifyWriteBuf(arg)
+			}
+		}
+		return strings.ReplaceAll(tr, "W", cls)
+	}
 	s.Follow = func(fn *ssa.Function) bool { return funcPkgPath(fn) == pkgIndex }
 	s.SiteOutcomes = func(call ssa.CallInstruction, st *PState) []Outcome {
 		ci, ok := call.(*ssa.Call)
@@ -167,18 +195,10 @@ func ruleC12R1(c *Ctx) {
 		if ci.Parent().Name() == "Write" && ci.Parent().Signature.Recv() != nil {
 			return ""
 		}
-		if sl, ok := p.(*ssa.Slice); ok && sl.High != nil {
-			if dependsOn(sl.High, func(y ssa.Value) bool {
-				c2, ok := y.(*ssa.Call)
-				return ok && isBinaryFunc(c2.Common(), "PutUvarint")
-			}) {
-				return "U"
-			}
-			if k, ok := constInt(sl.High); ok && k == 4 {
-				return "4"
-			}
+		if _, isParam := p.(*ssa.Parameter); isParam && ci.Parent().Parent() != nil {
+			return "W" // a local closure writing its parameter: classified at the closure's call site
 		}
-		return "B"
+		return classifyWriteBuf(p)
 	}
 	readerClass := func(ci *ssa.Call) string {
 		cc := ci.Common()
